@@ -29,6 +29,122 @@ def repo_root() -> Path:
     return Path(os.environ.get("LADIM_REPO", "/repo"))
 
 
+def lower_modern_syntax(tree: ast.Module) -> ast.Module:
+    """Source-level desugaring applied once when a module is loaded, so that every rule sees one
+    statement vocabulary:
+      * `match subject: case <literal> | <literal>: ... case _: ...`  ->  if / elif / else on
+        `subject == literal` (value, singleton, or-patterns and the wildcard only; any other pattern is
+        left as it is and reported as unsupported by whichever evaluator meets it);
+      * `if (x := e) <op> ...:` / `y = f((x := e))`  ->  `x = e` before the statement, when the
+        assignment expression is evaluated unconditionally (not under and/or, a conditional expression
+        or a comprehension).
+    Line numbers are kept."""
+
+    def literal_pattern(p):
+        if isinstance(p, ast.MatchValue):
+            return [p.value]
+        if isinstance(p, ast.MatchSingleton):
+            return [ast.Constant(value=p.value)]
+        if isinstance(p, ast.MatchOr):
+            out = []
+            for q in p.patterns:
+                r = literal_pattern(q)
+                if r is None:
+                    return None
+                out += r
+            return out
+        return None
+
+    class Lower(ast.NodeTransformer):
+        def visit_Match(self, node: ast.Match):
+            self.generic_visit(node)
+            arms = []
+            default = None
+            for c in node.cases:
+                if c.guard is not None:
+                    return node
+                if isinstance(c.pattern, ast.MatchAs) and c.pattern.pattern is None and c.pattern.name is None:
+                    default = c.body
+                    continue
+                lits = literal_pattern(c.pattern)
+                if lits is None:
+                    return node
+                tests = [ast.Compare(left=node.subject, ops=[ast.Is() if isinstance(l, ast.Constant) and any(l.value is x for x in (None, True, False)) else ast.Eq()], comparators=[l]) for l in lits]
+                test = tests[0] if len(tests) == 1 else ast.BoolOp(op=ast.Or(), values=tests)
+                arms.append((test, c.body))
+            if not arms:
+                return node
+            chain = default or []
+            for test, body in reversed(arms):
+                chain = [ast.copy_location(ast.If(test=test, body=body, orelse=chain), node)]
+            return ast.fix_missing_locations(chain[0])
+
+    tree = Lower().visit(tree)
+
+    def hoistable(root: ast.expr) -> list:
+        """NamedExpr nodes evaluated unconditionally when `root` is evaluated."""
+        out = []
+
+        def walk(e, cond):
+            if isinstance(e, ast.NamedExpr):
+                if not cond and isinstance(e.target, ast.Name):
+                    out.append(e)
+                walk(e.value, cond)
+                return
+            if isinstance(e, ast.BoolOp):
+                for i, v in enumerate(e.values):
+                    walk(v, cond or i > 0)
+                return
+            if isinstance(e, ast.IfExp):
+                walk(e.test, cond)
+                walk(e.body, True)
+                walk(e.orelse, True)
+                return
+            if isinstance(e, (ast.ListComp, ast.SetComp, ast.DictComp, ast.GeneratorExp, ast.Lambda)):
+                return
+            for c in ast.iter_child_nodes(e):
+                if isinstance(c, ast.expr):
+                    walk(c, cond)
+
+        walk(root, False)
+        return out
+
+    class Swap(ast.NodeTransformer):
+        def __init__(self, targets):
+            self.targets = targets
+
+        def visit_NamedExpr(self, n: ast.NamedExpr):
+            self.generic_visit(n)
+            if any(n is t for t in self.targets):
+                return ast.copy_location(ast.Name(id=n.target.id, ctx=ast.Load()), n)
+            return n
+
+    def lower_block(stmts: list) -> list:
+        out = []
+        for st in stmts:
+            for field in ("body", "orelse", "finalbody"):
+                if hasattr(st, field) and isinstance(getattr(st, field), list) and getattr(st, field) and isinstance(getattr(st, field)[0], ast.stmt):
+                    setattr(st, field, lower_block(getattr(st, field)))
+            if isinstance(st, ast.Try):
+                for h in st.handlers:
+                    h.body = lower_block(h.body)
+            if isinstance(st, ast.ClassDef):
+                st.body = lower_block(st.body)
+            holder_field = "test" if isinstance(st, ast.If) else "value" if isinstance(st, (ast.Assign, ast.AnnAssign, ast.AugAssign, ast.Expr, ast.Return)) else None
+            e = getattr(st, holder_field, None) if holder_field else None
+            if isinstance(e, ast.expr):
+                hs = hoistable(e)
+                if hs:
+                    for h in hs:
+                        out.append(ast.fix_missing_locations(ast.copy_location(ast.Assign(targets=[ast.Name(id=h.target.id, ctx=ast.Store())], value=h.value), st)))
+                    setattr(st, holder_field, Swap(hs).visit(e))
+            out.append(st)
+        return out
+
+    tree.body = lower_block(tree.body)
+    return ast.fix_missing_locations(tree)
+
+
 def unparse(node: ast.AST) -> str:
     """Normalised text of a construct (whitespace / comment independent)."""
     try:
@@ -148,6 +264,7 @@ class Program:
                 tree = ast.parse(src, filename=str(path))
             except SyntaxError as e:
                 raise AnalysisError(f"syntax error in {path}: {e}") from e
+            tree = lower_modern_syntax(tree)  # match statements and assignment expressions as if / assignments
             mi = ModuleInfo(
                 name=name,
                 path=path,
